@@ -10,6 +10,8 @@ from ..extract import e2
 
 PERMIT_EXEC = ("EXECUTE", "PERMIT")      # "executor permits"
 TTL = 300_000_000
+FINDING = "C07-gate-reassigned-cache"
+FINDING_CLAUSE = "unblocked_only_if_configured_gate_satisfied_by_original"
 VERDICT_FIELDS = ("action", "success", "blocked", "token", "hash_ok", "issuer_ok")
 
 
@@ -53,6 +55,7 @@ class C07(Prop):
 
     def setup(self, ctx):
         self.impl = cffl.Impl()
+        self._finding_only = {}
 
     def extract(self, ctx):
         return e2.extract()
@@ -269,10 +272,16 @@ class C07(Prop):
                     out.append(Violation("cached_reply_without_cache", "cached=0", raw, idx))
                 if not cands:
                     out.append(Violation("cached_reply_has_original", "an earlier non-cached reply for this prompt", raw, idx))
-                elif verdict not in cands:
-                    out.append(Violation("cached_verdict_identical", " or ".join(str(c) for c in cands), str(verdict), idx))
+                elif verdict not in [c[0] for c in cands]:
+                    out.append(Violation("cached_verdict_identical", " or ".join(str(c[0]) for c in cands), str(verdict), idx))
+                elif not o.blocked and not any(c[0] == verdict and criterion(gate, c[1], c[2]) for c in cands):
+                    # clause 1 read with the gate logic configured NOW: the verdicts this cached reply goes back to do
+                    # not satisfy it (possible only after `loop.gate_logic = ...` on the live loop: open finding)
+                    out.append(Violation(FINDING_CLAUSE, f"blocked (gate now {gate}; the original's verdicts were "
+                                         + " or ".join(f"executor={c[1]} assessor={c[2]}" for c in cands if c[0] == verdict) + ")",
+                                         raw, idx))
             else:
-                fresh = verdict
+                fresh = (verdict, z, y)
                 # judged by the verdicts actually obtained on this request, whatever the budget
                 if not o.blocked and not criterion(gate, z, y):
                     out.append(Violation("unblocked_only_if_gate_satisfied",
@@ -333,7 +342,15 @@ class C07(Prop):
             f = judge(t[1], Ob(raw), z, y, raw, idx, orig.get(t[1], []))
             if f is not None and cache_on:       # (a reply obtained while the cache is switched off is nobody's original:
                 orig[t[1]] = [f]                 #  an entry filed earlier stays the original of later cached replies)
+        self._finding_only[tuple(case["lines"])] = bool(out) and all(v.clause == FINDING_CLAUSE for v in out)
         return out
+
+    def trigger(self, case):
+        """open finding C07-gate-reassigned-cache: the gate logic is re-assigned on a live loop (`set gate`) and every
+        violation of the case is a cached reply judged by the NEW logic"""
+        if any(l.startswith("set gate ") for l in case["lines"]) and self._finding_only.get(tuple(case["lines"])):
+            return FINDING
+        return None
 
     def _oracle_reenter(self, info, idx, out):
         """every reply of a nest of overlapping requests is judged by the verdicts ITS OWN agents returned for it"""
